@@ -137,6 +137,10 @@ def judge(case, obs, load):
             return [('%s-raises-%s' % (h, st['exc']), st)]
         ret = st.get('ret')
         really_dead = probe.get('ret')
+        if beh.endswith('+release-fails') and i <= case['npre'] + 3 and ret is not True:      # (the first call of the history)
+            # the premise of this fault is a graceful request which ended the worker (then the second message is the release);
+            # under load the first request may time out instead, and the second message is a request: outside the premise
+            return []
         if h == 'close':
             continue
         says_dead = (ret is False) if h == 'alive' else (ret is True)
